@@ -5,6 +5,7 @@ use std::io::Write;
 
 mod c29;
 mod relocs;
+mod c16;
 
 fn main() {
     std::panic::set_hook(Box::new(|_| {}));
@@ -15,6 +16,7 @@ fn main() {
         "dump" => relocs::dump,
         "c13" => relocs::c13,
         "c12" => relocs::c12,
+        "c16" => c16::run_case,
         _ => {
             eprintln!("unknown subcommand {cmd}");
             std::process::exit(2);
